@@ -302,7 +302,7 @@ func worker(prop string, base uint64, from, count, stride int, limit float64, de
 		if sum.Trouble != "" {
 			break
 		}
-		if k%16 == 15 {
+		if k%16 == 15 || heapBig() {
 			runtime.GC()
 		}
 	}
@@ -590,4 +590,11 @@ func minimizeMode(in, out string, verbose bool) int {
 	}
 	fmt.Printf("minimised: tasks %d->%d, ops %d->%d, decisions %d->%d, %d candidate runs\n", len(rf.Scenario.Tasks), len(final.Tasks), nops(rf.Scenario), nops(final), len(rf.Decisions)/2, len(o.trace), m.tries)
 	return 0
+}
+
+// heapBig reports whether the heap grew past a quarter GiB (the collector is off during runs).
+func heapBig() bool {
+	var ms runtime.MemStats
+	runtime.ReadMemStats(&ms)
+	return ms.HeapAlloc > 256<<20
 }
